@@ -116,6 +116,12 @@ def strategy(tier):
                            "repeat_at": draw(st.integers(0, 11)),
                            "setup": {"x0": [S.sig(v * draw(st.sampled_from([1.0, 0.8, 1.2])) + (0.0 if v else 0.01), 5) for v in su["x0"]],
                                      "t0": su["t0"] + draw(st.sampled_from([0.0, 0.0, 0.5, 1.0])), "grid_rel": rel2}}
+            if draw(st.integers(0, 3)) == 0:
+                # the SAME output times as the first solve, asked again after the initial time was moved back a little
+                back = draw(st.sampled_from([0.25, 0.5, 1.0]))
+                c["second"].update(grid_kind="forward", grid_type=c["grid_type"] if not c["grid_type"].startswith("int") and c["grid_type"] != "number" else "list",
+                                   same_times_new_t0=True)
+                c["second"]["setup"] = dict(c["second"]["setup"], t0=su["t0"] - back, grid_rel=[S.sig(v + back, 9) for v in su["grid_rel"]])
         return c
     return case()
 
@@ -192,6 +198,8 @@ def _run(case, rec, part, model, f, tag=""):
               "int_array": np.array([int(v) for v in x0])}[xt] if xt in ("list", "array", "tuple") or all(v == int(v) for v in x0) else list(x0)
     model.initial_values = (x0_arg, t0)
     label_m = "odeint" if odeint_path else str(method)
+    if part.get("same_times_new_t0"):
+        rec.label("second-call:same-output-times-after-the-initial-time-moved")
     rec.label("entry:" + entry, "method:" + label_m, "grid:" + part["grid_type"], "grid-kind:" + kind, "source:" + case["source"], "x0:" + xt,
               "model:" + (case.get("name") or case["model"]["family"]))
     info = None
